@@ -235,16 +235,18 @@ CLAIMED = {
            "structs, named non-struct types, custom marshalers, formats (int32 / float / date-time: seen by the validator only)."),
  },
  "C17": {
-  "technique": "Lean 4 proof (totality and line preservation of the one modelled parser stage, removeIndent; crash of its unguarded form) + annotated programs generated from the documented grammar, clean and with hostile comment lines, scanned with codescan",
-  "text": ("Proof for one parser stage, partial: removeIndent (indentation stripper of swagger:operation YAML bodies) is modelled with explicit panics for indexing a nil regexp result; removeIndent_total: it returns "
+  "technique": "Lean 4 proof (three modelled parser stages: totality and line preservation of removeIndent and the crash of its unguarded form; the item splitters of `Schemes:` lines and of route / operation tag lists are faithful for every spacing and never yield an empty item) + correspondence of each stage with the real function through build-tag accessors + annotated programs generated from the documented grammar, clean and with hostile comment lines, scanned with codescan",
+  "text": ("Proof for three parser stages, partial: (1) removeIndent (indentation stripper of swagger:operation YAML bodies) is modelled with explicit panics for indexing a nil regexp result; removeIndent_total: it returns "
            "for EVERY list of lines and keeps their number (removeIndent_keeps_lines); blank_first_line_is_identity; unguarded_crashes proves that the code before the repair panicked on an empty body and on a "
-           "blank first line. The model is tied by correspondence: the real function (verif accessor) and the Lean function on random ASCII bodies. Everything else the property quantifies over is explored, "
+           "blank first line. (2) setSchemes.Parse after the regexp capture (split on commas, TrimSpace, drop empties; blank predicate a parameter): schemes_faithful — whatever blanks surround the commas and wherever empty items stand, the scanned schemes are exactly the non-empty tokens written, in order; schemes_items_clean — for EVERY captured string no scheme is empty or carries a comma; schemes_split_loses_nothing; old_schemes_rule_merges (the rule before the repair). "
+           "(3) the tag list of swagger:route / swagger:operation lines (strings.Fields on the captured group): tags_faithful, tags_items_clean (no empty tag, no blank inside, for EVERY string), tags_lose_only_blanks. "
+           "The models are tied by correspondence: the real functions (verif accessors VerifRemoveIndent, VerifSchemes, VerifPathAnnotation) and the Lean functions on random ASCII bodies and on grammar-generated + hostile annotation lines with ASCII, no-break and ideographic blanks (the real regexp cuts the group, the model gets the group; lines written per the grammar must be recognised and read back exactly). Everything else the property quantifies over is explored, "
            "not proved: programs built from the documented grammar (meta, route + Responses, operation + YAML body, parameters, response, model with validations at items depth, every method and letter case) "
            "must scan into a document that passes go-openapi/validate and holds every annotated route with method, path, id, tag, parameters and response codes; the same programs with hostile lines inserted in "
            "every comment group (and odd field types) must never crash the scanner; body parameters (inline envelope, named, slice, map, pointer) reach un-annotated types, the Schemes line is written with and without spaces. "
            "Two crashes and two invalid-document defects found this way were repaired; the extension-block parser's crashes are known findings."),
-  "note": ("Trusted: Lean kernel + audited axioms; codescan.Run in-process under recover(); go-openapi/validate; the expectation derived from the program generator. Modelled rather than verified: only removeIndent "
-           "(regular expressions transcribed by hand for ASCII). Not modelled: the ~40 regular expressions, sectionedParser, yamlSpecScanner, document assembly, merging with an input spec."),
+  "note": ("Trusted: Lean kernel + audited axioms; codescan.Run in-process under recover(); go-openapi/validate; the expectation derived from the program generator. Modelled rather than verified: removeIndent "
+           "(regular expressions transcribed by hand for ASCII), the two item splitters (strings.Split / TrimSpace / Fields transcribed; unicode.IsSpace as a table); the regexps rxSchemes / rxRoute / rxOperation that cut the groups are run, not modelled. Not modelled: the ~40 regular expressions, sectionedParser, yamlSpecScanner, document assembly, merging with an input spec."),
  },
 }
 NOT_YET = {
